@@ -53,7 +53,7 @@ ASSUMPTIONS = [
     "streams never iterated and garbage-collection timing of abandoned generators are unspecified (the harness closes abandoned streams after taking its probes, before judging completion)",
     "a stream is consumed by one task from first item to end",
 ]
-MINIMUMS = {"monitor:items": 300, "monitor:body-state": 1000, "monitor:consumer-between": 500, "monitor:consumer-after": 300, "monitor:completion": 300, "creation_differs_from_consumption": 200, "consumed_while_cancelling": 60, "monitor:stream-owns-spawned": 100, "streams_created_in_the_context_of_a_left_scope": 12, "calls_of_callables_with_another_advertised_signature": 1}
+MINIMUMS = {"monitor:items": 300, "monitor:body-state": 1000, "monitor:consumer-between": 500, "monitor:consumer-after": 300, "monitor:completion": 300, "creation_differs_from_consumption": 200, "consumed_while_cancelling": 60, "monitor:stream-owns-spawned": 100, "streams_created_in_the_context_of_a_left_scope": 12, "calls_of_callables_with_another_advertised_signature": 1, "streams_closed_early_with_a_task_that_never_ends_by_itself": 10}
 JOBS = {"quick": 4, "thorough": 8}
 LEVEL_TEXT = (
     "The product of generator shapes (0-5 items, end/raise, yields inside a nested scope, metric records, an inner stream) x 4 consumption places x full/break/aclose modes is "
@@ -110,7 +110,17 @@ def run_case(R: Recorder, case: dict[str, Any], verbose: bool = False) -> None:
     async def numbers(W: World) -> Any:
         from hv.gen import metricsfam
 
+        k_close = None if mode == "full" else int(mode.split("@")[1])
+        # a stream that is certainly closed before its generator ends (the consumer stops at an item): its task may be one that never ends
+        # by itself (a producer feeding a queue until it is told to stop) - closing the stream stops it
+        endless = k_close is not None and 1 <= k_close <= n_items + (2 if inner and n_items > 0 else 0) and (n_items + len(place) + len(mode)) % 2 == 0
+
         async def worker() -> None:
+            if endless:
+                try:
+                    await asyncio.get_running_loop().create_future()
+                finally:
+                    log["worker_done"] = True
             await W.sched.gate("stream-worker")  # released only once every other task is blocked
             log["worker_done"] = True
 
@@ -119,6 +129,7 @@ def run_case(R: Recorder, case: dict[str, Any], verbose: bool = False) -> None:
                 # a task spawned by the generator belongs to the stream's own scope: the stream does not end before it does
                 log["worker"] = ctx.spawn(worker)
                 R.count("streams_that_spawn")
+                R.count("streams_closed_early_with_a_task_that_never_ends_by_itself", endless)
             if records:
                 ctx.record(metricsfam.make("Mx", 1000 + i), merge=metricsfam.merge_fn("concat"))
 
